@@ -3,6 +3,9 @@
 package vsync
 
 import (
+	"runtime"
+	"strconv"
+	"strings"
 	"sync"
 
 	"verif/vsched"
@@ -33,6 +36,7 @@ type Mutex struct {
 	o     vsched.Obj
 	held  bool
 	owner int
+	where string
 }
 
 func (m *Mutex) Lock() {
@@ -46,10 +50,36 @@ func (m *Mutex) Lock() {
 	if m.o.Fresh() {
 		m.held = false
 	}
-	vsched.Block("mutex", func() bool { return !m.held })
+	why := "mutex"
+	if m.held && vsched.Logging() {
+		why = "mutex held by T" + strconv.Itoa(m.owner) + " since " + m.where
+	}
+	vsched.Block(why, func() bool { return !m.held })
 	m.held = true
 	m.owner = vsched.Cur()
+	if vsched.Logging() {
+		m.where = caller()
+	}
 	vsched.Record(&m.o, kLock, true, 0)
+}
+
+func caller() string {
+	pcs := make([]uintptr, 6)
+	n := runtime.Callers(3, pcs)
+	fr := runtime.CallersFrames(pcs[:n])
+	out := ""
+	for i := 0; i < 3; i++ {
+		f, more := fr.Next()
+		fn := f.Function
+		if j := strings.LastIndex(fn, "/"); j >= 0 {
+			fn = fn[j+1:]
+		}
+		out += fn + ":" + strconv.Itoa(f.Line) + " "
+		if !more {
+			break
+		}
+	}
+	return out
 }
 
 func (m *Mutex) TryLock() bool {
